@@ -58,6 +58,8 @@ func TestVerifC12Model(t *testing.T) {
 	}
 	ks = append(ks, p2(62), new(big.Int).Neg(p2(62)), p2(63), p2(lm+63), new(big.Int).Sub(p2(lm+64), big.NewInt(1)), p2(lm+64))
 	accepted := 0
+	tally := vkit.Tally{}
+	defer tally.Flush(r)
 	for _, sign := range []int{-2, -1, 0, 1, 2} {
 		for _, a := range as {
 			for _, k := range ks {
@@ -79,6 +81,7 @@ func TestVerifC12Model(t *testing.T) {
 							continue
 						}
 						accepted++
+						r.Outcome(fmt.Sprintf("descriptor accepted:squares=%d:sign=%d", nsq, sign))
 						// the relation the verifier checks, read from the real structure
 						exp := s.mCorrect.Lhs[0].Power
 						P := big.NewInt(s.mCorrect.Rhs[1].Power)
@@ -121,7 +124,9 @@ func TestVerifC12Model(t *testing.T) {
 								for _, qf := range []uint{a, a / 4, 0, 1, 4, 1 << 63, a/4 + 1<<62, a/4 + 1<<63, a/4 + 3<<62, a + 1<<63} { // incl. the preimages of a under the 64-bit wrap-around of 4*factor'
 									for _, qb := range bounds {
 										r.Eval()
-										if p.ProvesStatement(qs, qf, qb) && !holds(qs, qf, qb) {
+										proves := p.ProvesStatement(qs, qf, qb)
+										tally[fmt.Sprintf("query:ProvesStatement=%v:true over the integers=%v", proves, holds(qs, qf, qb))]++
+										if proves && !holds(qs, qf, qb) {
 											cls := "small-factor"
 											if a > math.MaxInt64 {
 												cls = "factor>=2^63"
